@@ -88,7 +88,7 @@ impl Prop for C13 {
         "C13"
     }
     fn rule(&self) -> String {
-        format!("graphs of all 8 kinds with >= 1 edge, n in 2..=14 (some 30..=40 and sparse 41..=90, which reach three or more levels), positive dyadic / tie-rich weights or unweighted, tie-rich shapes (paths, cycles, regular, joined cliques); seed in u64, resolution in {{None, k/4 for k = 1..8}}, threshold in {{None, 0, 1e-7, 1e-3, 0.1}}, weighted flag. Oracle: the call returns within a step budget of {} loop iterations (hook; ordinary runs need < 30) and the 120 s watchdog, without panic; the list of levels is non-empty; each level is a partition of the node set into non-empty communities; level k+1 is a coarsening of level k; on single-edge graphs the modularity computed by the harness's own formula (same weighted flag and resolution) is non-decreasing along the levels and level 0 is at least the all-singletons value (tolerance 1e-9); louvain_communities with the same arguments equals the last level. Non-trivial = the answer has >= 2 levels or a level with 2..n-1 communities; distinct = distinct serialised case.", STEP_BUDGET)
+        format!("graphs of all 8 kinds with >= 1 edge, n in 2..=14 (some 30..=40 and sparse 41..=90, which reach three or more levels), positive dyadic / tie-rich weights or unweighted, tie-rich shapes (paths, cycles, regular, joined cliques); seed in u64, resolution in {{None, k/4 for k = 1..8}}, threshold in {{None, 0, 1e-7, 1e-3, 0.1}}, weighted flag. Oracle: the call returns within a step budget of {} loop iterations (hook; ordinary runs need < 30) and the 120 s watchdog, without panic; the list of levels is non-empty; each level is a partition of the node set into non-empty communities; level k+1 is a coarsening of level k; on single-edge graphs the modularity computed by the harness's own formula (same weighted flag and resolution) is non-decreasing along the levels and level 0 is at least the all-singletons value (tolerance 1e-9); louvain_communities with the same arguments equals the last level. Non-trivial = the answer has >= 2 levels or a level with 2..n-1 communities; distinct = distinct serialised case. Round 9: three fixed graphs with a hub of 2 099 neighbours (edges outwards, inwards, undirected) plus a link from every third leaf to the next, unweighted, within 2 000 sweeps (they use fewer than 20).", STEP_BUDGET)
     }
     fn assumptions(&self) -> Vec<String> {
         vec![
